@@ -1,14 +1,23 @@
 """C12 - structured multi-line fields round-trip as records and can always be dumped.
 
-Engine B over two families of inputs, for the six class configurations Dsc, Changes, BuildInfo, PdiffIndex,
+Engine B over two families of inputs (S, R) and Engine A over edit histories (H), for the six class configurations Dsc, Changes, BuildInfo, PdiffIndex,
 Release(apt-ftparchive), Release(dak):
 
   S  "subsets":  every subset of the class's structured fields present (the others absent), each present field
                  carrying 1, 2 or 3 records (tokens/sizes rotate deterministically with field and record index);
   R  "records":  one structured field present, its record list enumerated exhaustively (all single records; all
-                 pairs / triples over a reduced record alphabet that keeps every size-width combination).
+                 pairs / triples over a reduced record alphabet that keeps every size-width combination);
+  H  "histories": dump - edit - dump on ONE object, for every structured field of every class configuration: the field
+                 (two initial record lists) and its table neighbour are present; the object is built from records or
+                 parsed from text and dumped; then every sequence of up to 2 (thorough: 3) applicable edits is applied,
+                 with a dump after each edit: in place on the record list (append a record whose size is longer than all
+                 present, delete the record with the longest size, set a record's 'size' longer / shorter, extend by two
+                 records, replace a record), re-assign the field, delete the field, switch Release.size_field_behavior,
+                 and append to / delete the neighbour field.  The last dump of every history must re-parse to the edited
+                 records, be aligned to the width computed from the records held NOW (and the behaviour set NOW), and a
+                 further dump must give the same text and leave the records as edited.
 
-Every input is run in several directions: built through the API (assign a list of dicts / a single mapping) or
+Every S/R input is run in several directions: built through the API (assign a list of dicts / a single mapping) or
 parsed from text (tight, column-aligned, first record on the header line, single-line, and for pdiff the natural
 form with single-line *-Current fields).
 
@@ -26,7 +35,11 @@ LEVEL = "model_checking"
 RULE = ("inputs = (class configuration, set of structured fields present, record list per field, direction) walked as a "
         "choice tree class -> subset/field -> record list -> direction (states = nodes, transitions = edges, traces = "
         "paragraphs built or parsed, dumped and re-parsed on the real classes); non-trivial = cases in which some but not "
-        "all structured fields of the class are present, or a field holds sizes of different widths")
+        "all structured fields of the class are present, or a field holds sizes of different widths.  Family H adds edit "
+        "histories on one object (Engine A): a state is the sequence of edits applied since construction (mirrored on a "
+        "plain-list model of the records), a transition one edit followed by dump(), a trace one complete history "
+        "(construct, dump, edit, dump, ... , dump twice) replayed from scratch on the real class; every prefix of a history "
+        "is a case of its own, so only the last dump of a history is compared; non-trivial = at least one edit")
 BUDGET = {"quick": 240, "thorough": 3000}
 
 # ---- the documented sub-field names (display spelling of the field, sub-field names in line order)
@@ -77,6 +90,12 @@ def bounds(tier):
                                   ("12 records (4 tokens x 3 sizes)", "6 records (2 tokens x 3 sizes)") if tier == "quick" else
                                   ("24 records (4 x 3 x 2: independent hash/rest tokens)", "12 records (4 tokens x 3 sizes)")),
             "R_directions": DIRS_R + DIRS_ONE,
+            "H_histories": {"edited_field": "every structured field of every class configuration (34), its table neighbour also present",
+                            "initial_records": "sizes of (1, 2) digits; of (17, 1) digits", "directions": H_DIRS,
+                            "edits": H_OPS, "depth": "all sequences of 0..%d applicable edits" % H_DEPTH[tier],
+                            "checked": "last dump of each history: re-parse == edited records, absent fields absent, "
+                                       "alignment from the current records and behaviour, second dump identical, object's "
+                                       "records as edited"},
             "tokens": "a, bb, x/y.z, e-acute (seed rotates representatives)", "sizes": "1, 22, 17 digits"}
 
 
@@ -88,6 +107,11 @@ def assumptions():
             "(Release('MD5Sum: aaa 12 x\\n') or r['SHA1'] = {one mapping}) raises TypeError in dump() on both trees; the "
             "statement only promises dumping for *lists* of records and for *absent* fields, and Release checksum fields are "
             "multi-line by format, so the dump demand is not made there (parsing is still checked; counted in extra)",
+            "family H: record lists are edited the way the class documents ('mutable lists'): list.append/extend/del/[i]=, "
+            "record['size']=, item assignment and deletion of the field, all with plain dicts; lists are never emptied (only "
+            "'del-longest' shortens, and only when 2+ records remain); 'the longest size present' and size_field_behavior are "
+            "read at the time of each dump; all H fields are in list (multi-line) form, so the dak single-line carve-out is "
+            "not touched by H",
             "re-parsed records are compared as records: a single-line field re-read as one mapping counts as the list of that one record",
             "seed rotates token representatives and the spelling (case) of the field names; both are equivalent for a "
             "case-insensitive, whitespace-splitting implementation"]
@@ -179,12 +203,17 @@ def units(tier, seed):
         for fi in range(len(TABLE[cname])):
             for length in (1, 2, 3):
                 out.append({"family": "R", "cls": cname, "beh": beh, "field": fi, "length": length})
+    for cname, beh in CONFIGS:
+        for fi in range(len(TABLE[cname])):
+            out.append({"family": "H", "cls": cname, "beh": beh, "field": fi})
     return out
 
 
 def unit_cost(u, tier):
     if u["family"] == "S":
         return sum(len(s) + 1 for s in u["subsets"]) * 8
+    if u["family"] == "H":
+        return 4 * (13 ** H_DEPTH[tier]) * 6
     nsub = len(TABLE[u["cls"]][u["field"]][1])
     return {1: 3 * 4 ** (nsub - 1), 2: 144 if tier == "quick" else 576, 3: 216 if tier == "quick" else 1728}[u["length"]] * 5
 
@@ -241,6 +270,70 @@ def records_of(value):
     if hasattr(value, "keys"):
         return "mapping", [[(k, value[k]) for k in value.keys()]]
     return "list", [[(k, r[k]) for k in r.keys()] for r in value]
+
+
+def check_text(cname, beh, fields, single, text, pre=""):
+    """What the statement says about a dumped paragraph `text` of class configuration (cname, beh) whose structured
+    fields currently hold `fields` = [(name, sub-field names, records)]: it re-parses to the same records in the same
+    order (4.) and, for Release / PdiffIndex, the size column is right-aligned to the documented width computed from these
+    records (5.).  pre: inserted into the signatures (edit histories).  -> (list of (sig, expected, observed), evaluations)"""
+    cfg = cfg_name(cname, beh)
+    cls = _cls(cname)
+    present = set(n.lower() for n, _s, _r in fields)
+    want = dict((n, [list(zip(s, r)) for r in recs]) for n, s, recs in fields)
+    bad = []
+    evals = [0]
+    # ---- 4. re-parse gives the same records in the same order
+    try:
+        p2 = cls(text)
+    except Exception as e:
+        return [("mv/%s/%sreparse/raises/%s" % (cfg, pre, type(e).__name__), "no exception", _exc(e) + " on " + repr(text))], 1
+    for n, s, recs in fields:
+        evals[0] += 1
+        try:
+            _shape, got = records_of(p2[n])
+        except Exception as e:
+            bad.append(("mv/%s/%sreparse/field-raises/%s" % (cfg, pre, type(e).__name__), want[n], _exc(e) + " in " + repr(text)))
+            continue
+        if got != want[n]:
+            bad.append(("mv/%s/%sreparse/records" % (cfg, pre), want[n], "%r from %r" % (got, text)))
+    for k, v in (("Origin", "x"), ("Label", "y")):
+        try:
+            if p2[k] != v:
+                bad.append(("mv/%s/%sreparse/plain-field" % (cfg, pre), v, "%r from %r" % (p2[k], text)))
+        except KeyError:
+            bad.append(("mv/%s/%sreparse/plain-field" % (cfg, pre), v, "absent from %r" % text))
+    for n, _s in TABLE[cname]:
+        if n.lower() not in present and n in p2:
+            bad.append(("mv/%s/%sreparse/phantom-field" % (cfg, pre), "%s absent" % n, "present in %r" % text))
+    # ---- 5. the size column
+    width = FIXED_WIDTH.get((cname, beh))
+    if width is not None:
+        lines = text.split("\n")
+        for n, s, recs in fields:
+            evals[0] += 1
+            w = width if width != "longest" else max(len(r[1]) for r in recs)
+            exp = [" ".join(r[j].rjust(w) if j == 1 else r[j] for j in range(len(r))) for r in recs]
+            idx = [i for i, l in enumerate(lines) if l.partition(":")[0].lower() == n.lower() and not l.startswith(" ")]
+            if len(idx) != 1:
+                bad.append(("mv/%s/%salign/field-lines" % (cfg, pre), "one %s block" % n, text))
+                continue
+            head = lines[idx[0]].partition(":")[2]
+            block = []
+            for l in lines[idx[0] + 1:]:
+                if not l.startswith(" "):
+                    break
+                block.append(l)
+            if single[n] and not block:
+                got = [head.lstrip(" ")]
+                ok = head.startswith(" ") and got == exp
+            else:
+                got = block
+                ok = head == "" and block == [" " + e for e in exp]
+                exp = [" " + e for e in exp]
+            if not ok:
+                bad.append(("mv/%s/%salign" % (cfg, pre), exp, "%r (header rest %r)" % (got, head)))
+    return bad, evals[0]
 
 
 def exec_case(case, stats=None):
@@ -318,57 +411,9 @@ def exec_case(case, stats=None):
         return finish([("mv/%s/dump/raises/%s" % (cfg, type(e).__name__), "dump() returns text", _exc(e))])
     if not isinstance(text, str):
         return finish([("mv/%s/dump/type" % cfg, "str", type(text).__name__)])
-    # ---- 4. re-parse gives the same records in the same order
-    try:
-        p2 = cls(text)
-    except Exception as e:
-        note("reparse raises")
-        return finish([("mv/%s/reparse/raises/%s" % (cfg, type(e).__name__), "no exception", _exc(e) + " on " + repr(text))])
-    for n, s, recs in fields:
-        evals[0] += 1
-        try:
-            _shape, got = records_of(p2[n])
-        except Exception as e:
-            bad.append(("mv/%s/reparse/field-raises/%s" % (cfg, type(e).__name__), want[n], _exc(e) + " in " + repr(text)))
-            continue
-        if got != want[n]:
-            bad.append(("mv/%s/reparse/records" % cfg, want[n], "%r from %r" % (got, text)))
-    for k, v in (("Origin", "x"), ("Label", "y")):
-        try:
-            if p2[k] != v:
-                bad.append(("mv/%s/reparse/plain-field" % cfg, v, "%r from %r" % (p2[k], text)))
-        except KeyError:
-            bad.append(("mv/%s/reparse/plain-field" % cfg, v, "absent from %r" % text))
-    for n, _s in TABLE[cname]:
-        if n.lower() not in present and n in p2:
-            bad.append(("mv/%s/reparse/phantom-field" % cfg, "%s absent" % n, "present in %r" % text))
-    # ---- 5. the size column
-    width = FIXED_WIDTH.get((cname, beh))
-    if width is not None:
-        lines = text.split("\n")
-        for n, s, recs in fields:
-            evals[0] += 1
-            w = width if width != "longest" else max(len(r[1]) for r in recs)
-            exp = [" ".join(r[j].rjust(w) if j == 1 else r[j] for j in range(len(r))) for r in recs]
-            idx = [i for i, l in enumerate(lines) if l.partition(":")[0].lower() == n.lower() and not l.startswith(" ")]
-            if len(idx) != 1:
-                bad.append(("mv/%s/align/field-lines" % cfg, "one %s block" % n, text))
-                continue
-            head = lines[idx[0]].partition(":")[2]
-            block = []
-            for l in lines[idx[0] + 1:]:
-                if not l.startswith(" "):
-                    break
-                block.append(l)
-            if single[n] and not block:
-                got = [head.lstrip(" ")]
-                ok = head.startswith(" ") and got == exp
-            else:
-                got = block
-                ok = head == "" and block == [" " + e for e in exp]
-                exp = [" " + e for e in exp]
-            if not ok:
-                bad.append(("mv/%s/align" % cfg, exp, "%r (header rest %r)" % (got, head)))
+    # ---- 4./5. re-parse gives the same records in the same order; the size column
+    bad, n = check_text(cname, beh, fields, single, text)
+    evals[0] += n
     note("violating" if bad else "round-trips")
     # one report per signature
     seen = set()
@@ -380,7 +425,243 @@ def exec_case(case, stats=None):
     return finish(uniq)
 
 
+# ------------------------------------------------------------------------------------------------ family H: edit histories
+#
+# One object is built, dumped (checked as in S/R), then edited and dumped again, up to H_DEPTH edits.  The record lists are
+# mutable and meant to be edited in place, so "the paragraph" that a dump must render is whatever the object holds at that
+# moment: everything the statement says about a dump is demanded of every dump of the history.
+
+H_DEPTH = {"quick": 2, "thorough": 3}
+H_DIRS = ["assign-list", "text-multi"]
+H_OPS = ["append-longer", "del-longest", "grow-size", "shrink-size", "extend-two", "replace-record", "reassign",
+         "del-field", "switch-behavior", "other:append-longer", "other:del-field"]
+# what kind of edit the last one was (part of the signature: a different way of losing track of an edit is a different bug)
+H_CLASS = {"append-longer": "in-place", "del-longest": "in-place", "grow-size": "in-place", "shrink-size": "in-place",
+           "extend-two": "in-place", "replace-record": "in-place", "other:append-longer": "in-place",
+           "reassign": "reassign", "del-field": "del-field", "other:del-field": "del-field",
+           "switch-behavior": "switch-behavior"}
+
+
+def digits(n, seed):
+    """a size of n digits (deterministic; no leading zero)"""
+    src = symbols(seed)[1][2].replace("0", "4") * 3
+    return src[:n]
+
+
+def h_initials(nsub, seed):
+    """the two initial record lists of the edited field: sizes of 1 and 2 digits; of 17 digits (wider than 16) and 1"""
+    toks, sizes = symbols(seed)
+
+    def rec(i, size):
+        return [size if j == 1 else toks[(i + j) % 4] for j in range(nsub)]
+    return [[rec(0, sizes[0]), rec(1, sizes[1])], [rec(2, sizes[2]), rec(3, sizes[0])]]
+
+
+def h_new_record(nsub, k, size, seed):
+    toks = symbols(seed)[0]
+    return [size if j == 1 else toks[(k + 2 * j + 1) % 4] + "-n%d" % k for j in range(nsub)]
+
+
+def h_applicable(model, beh, cname, seed):
+    """concrete edits applicable to the model state, in canonical order.  model: [[name, subs, recs or None], [other...]]
+    (None = the field is absent).  Every edit is [kind, ...concrete arguments]; field index 0 = the edited field, 1 = the
+    other structured field of the paragraph."""
+    out = []
+    name, subs, recs = model[0]
+    nsub = len(subs)
+    if recs is not None:
+        longest = max(len(r[1]) for r in recs)
+        ilong = [len(r[1]) for r in recs].index(longest)
+        nrec = len(recs)
+        out.append(["append-longer", 0, h_new_record(nsub, nrec, digits(longest + 1, seed), seed)])
+        if nrec >= 2:       # an empty record list is outside the statement
+            out.append(["del-longest", 0, ilong])
+        out.append(["grow-size", 0, 0, digits(longest + 1, seed)])
+        out.append(["shrink-size", 0, ilong, digits(1, seed)])
+        out.append(["extend-two", 0, [h_new_record(nsub, nrec, digits(1, seed), seed),
+                                      h_new_record(nsub, nrec + 1, digits(longest + 2, seed), seed)]])
+        out.append(["replace-record", 0, nrec - 1, h_new_record(nsub, nrec + 2, digits(longest + 1, seed), seed)])
+    out.append(["reassign", 0, [h_new_record(nsub, 7, digits(3, seed), seed), h_new_record(nsub, 8, digits(5, seed), seed)]])
+    if recs is not None:
+        out.append(["del-field", 0])
+    if beh is not None:
+        out.append(["switch-behavior", "dak" if beh == "apt-ftparchive" else "apt-ftparchive"])
+    _oname, osubs, orecs = model[1]
+    if orecs is not None:
+        olong = max(len(r[1]) for r in orecs)
+        out.append(["other:append-longer", 1, h_new_record(len(osubs), len(orecs), digits(olong + 1, seed), seed)])
+        out.append(["other:del-field", 1])
+    return out
+
+
+def h_apply_model(model, beh, op):
+    """-> (new model, new behavior); the model is copied, never shared"""
+    model = [[n, s, None if recs is None else [list(r) for r in recs]] for n, s, recs in model]
+    k = op[0].split(":")[-1]
+    if k == "switch-behavior":
+        return model, op[1]
+    f = model[op[1]]
+    if k == "append-longer":
+        f[2].append(list(op[2]))
+    elif k == "del-longest":
+        del f[2][op[2]]
+    elif k in ("grow-size", "shrink-size"):
+        f[2][op[2]][1] = op[3]
+    elif k == "extend-two":
+        f[2].extend([list(r) for r in op[2]])
+    elif k == "replace-record":
+        f[2][op[2]] = list(op[3])
+    elif k == "reassign":
+        f[2] = [list(r) for r in op[2]]
+    elif k == "del-field":
+        f[2] = None
+    else:
+        raise ValueError(op)
+    return model, beh
+
+
+def h_apply_real(p, model, op):
+    """the same edit on the real object, the way a user of the class writes it"""
+    k = op[0].split(":")[-1]
+    if k == "switch-behavior":
+        p.size_field_behavior = op[1]
+        return
+    name, subs, _recs = model[op[1]]
+
+    def rec(r):      # sub-fields inserted in reverse, as in exec_case
+        return dict(reversed(list(zip(subs, r))))
+    if k == "append-longer":
+        p[name].append(rec(op[2]))
+    elif k == "del-longest":
+        del p[name][op[2]]
+    elif k in ("grow-size", "shrink-size"):
+        p[name][op[2]]["size"] = op[3]
+    elif k == "extend-two":
+        p[name].extend([rec(r) for r in op[2]])
+    elif k == "replace-record":
+        p[name][op[2]] = rec(op[3])
+    elif k == "reassign":
+        p[name] = [rec(r) for r in op[2]]
+    elif k == "del-field":
+        del p[name]
+    else:
+        raise ValueError(op)
+
+
+def h_histories(model, beh, cname, seed, depth):
+    """all edit sequences of length 0..depth, shortest first (breadth-first over the model)"""
+    level = [([], model, beh)]
+    out = [[]]
+    for _d in range(depth):
+        nxt = []
+        for ops, m, b in level:
+            for op in h_applicable(m, b, cname, seed):
+                m2, b2 = h_apply_model(m, b, op)
+                nxt.append((ops + [op], m2, b2))
+        out += [ops for ops, _m, _b in nxt]
+        level = nxt
+    return out
+
+
+def exec_history(case, stats=None):
+    """case: family H.  -> list of (sig, expected, observed); stops at the first dump that is wrong."""
+    cname, beh = case["cls"], case["beh"]
+    cfg = cfg_name(cname, beh)
+    cls = _cls(cname)
+    d = case["dir"]
+    model = [[n, list(s), [list(r) for r in recs]] for n, s, recs in case["fields"]]
+    evals = [0]
+
+    def note(k):
+        if stats is not None:
+            stats["%s %s: %s" % (cfg, d, k)] += 1
+
+    def finish(bad):
+        if stats is not None:
+            stats["__evaluations__"] += evals[0]
+        seen = set()
+        return [b for b in bad if not (b[0] in seen or seen.add(b[0]))]
+
+    try:
+        if d == "text-multi":
+            p = cls(make_text(case))
+        else:
+            p = cls({"Origin": "x"})
+            for n, s, recs in model:
+                p[n] = [dict(reversed(list(zip(s, r)))) for r in recs]
+            p["Label"] = "y"
+        if beh is not None:
+            p.size_field_behavior = beh
+    except Exception as e:
+        note("construct raises " + type(e).__name__)
+        return finish([("mv/%s/construct/raises/%s" % (cfg, type(e).__name__), "no exception", _exc(e))])
+
+    def dump_and_check(pre, cfg_now, beh_now, what, full=True):
+        """one dump of the object in its current state against the model's current state (+ a repeated dump).
+        full=False: only that it returns text - this dump is the last one of a shorter history, which is a case of its own"""
+        fields = [(n, s, recs) for n, s, recs in model if recs is not None]
+        single = dict((n, False) for n, _s, _r in fields)
+        cfg_now = cfg_name(cname, beh_now)          # the configuration at the time of this dump
+        evals[0] += 1
+        try:
+            text = p.dump()
+        except Exception as e:
+            return [("mv/%s/%sdump/raises/%s" % (cfg_now, pre, type(e).__name__), "dump() returns text " + what, _exc(e))]
+        if not isinstance(text, str):
+            return [("mv/%s/%sdump/type" % (cfg_now, pre), "str", type(text).__name__)]
+        if not full:
+            return []
+        bad, n = check_text(cname, beh_now, fields, single, text, pre)
+        evals[0] += n
+        if bad or not pre:
+            return bad
+        # the object survives the dump: the same text again, and it still holds the edited records
+        evals[0] += 2
+        try:
+            again = p.dump()
+        except Exception as e:
+            return [("mv/%s/%sdump-again/raises/%s" % (cfg_now, pre, type(e).__name__), "dump() returns the same text", _exc(e))]
+        if again != text:
+            bad.append(("mv/%s/%sdump-again/text" % (cfg_now, pre), text, again))
+        for n, s, recs in model:
+            if recs is None:
+                if n in p:
+                    bad.append(("mv/%s/%sobject/phantom-field" % (cfg_now, pre), "%s absent" % n, "present"))
+                continue
+            try:
+                got = [dict((k, r[k]) for k in r.keys()) for r in p[n]]
+            except Exception as e:
+                bad.append(("mv/%s/%sobject/raises/%s" % (cfg_now, pre, type(e).__name__), recs, _exc(e)))
+                continue
+            if got != [dict(zip(s, r)) for r in recs]:
+                bad.append(("mv/%s/%sobject/records" % (cfg_now, pre), [dict(zip(s, r)) for r in recs], got))
+        return bad
+
+    bad = dump_and_check("", cfg, beh, "(first dump)", full=not case["ops"])
+    if bad:
+        note("first dump wrong")
+        return finish(bad)
+    done = []
+    for i, op in enumerate(case["ops"]):
+        pre = "edit/%s/" % H_CLASS[op[0]]
+        try:
+            h_apply_real(p, model, op)
+        except Exception as e:
+            note("edit raises " + type(e).__name__)
+            return finish([("mv/%s/%sraises/%s" % (cfg, pre, type(e).__name__), "the edit is applied", "%r: %s" % (op, _exc(e)))])
+        model, beh = h_apply_model(model, beh, op)
+        done.append(op[0])
+        bad = dump_and_check(pre, cfg, beh, "after " + ", ".join(done), full=i == len(case["ops"]) - 1)
+        if bad:
+            note("wrong after an edit")
+            return finish(bad)
+    note("all %d dumps right" % (1 + len(case["ops"])))
+    return finish([])
+
+
 def nontrivial(case):
+    if case["family"] == "H":
+        return bool(case["ops"])
     n_struct = len(TABLE[case["cls"]])
     if 0 < len(case["fields"]) < n_struct:
         return True
@@ -404,7 +685,31 @@ def run_unit(u, tier, seed):
         for sig, exp, obs in bad:
             part.violation(sig, case, exp, obs)
 
-    if u["family"] == "S":
+    if u["family"] == "H":
+        fi = u["field"]
+        name, subs = table[fi]
+        ofi = (fi + 1) % len(table)
+        oname, osubs = table[ofi]
+        for initial in h_initials(len(subs), seed):
+            model = [[spell(name, seed), subs, initial], [spell(oname, seed), osubs, rotating_records(len(osubs), ofi, 2, seed)]]
+            hs = h_histories(model, beh, cname, seed, H_DEPTH[tier])
+            for d in H_DIRS:
+                for ops in hs:
+                    case = {"family": "H", "cls": cname, "beh": beh, "dir": d, "ops": ops, "fields": model}
+                    part.states += 1
+                    part.transitions += 1 if ops else 0
+                    part.traces += 1
+                    bad = exec_history(case, stats)
+                    if ops:
+                        part.nontrivial += 1
+                    for sig, exp, obs in bad:
+                        part.violation(sig, case, exp, obs, rank=len(ops))
+                    part.extra["H histories of %d edits" % len(ops)] += 1
+                    for op in ops:
+                        part.extra["H edit " + op[0]] += 1
+                    part.max_depth = max(part.max_depth, len(ops))
+            part.sample(case)
+    elif u["family"] == "S":
         for sub in u["subsets"]:
             part.states += 1
             part.extra["S subsets"] += 1
@@ -452,10 +757,14 @@ def run_unit(u, tier, seed):
 
 
 def replay(case):
+    if case["family"] == "H":
+        return exec_history(case)
     return exec_case(case)
 
 
 def repro_py(case):
+    if case["family"] == "H":
+        return "from mc.props import c12\ncase = %r\nbad = c12.replay(case)\nassert not bad, bad\n" % (case,)
     lines = ["from debian import deb822", "case = %r" % (case,)]
     if case["dir"].startswith("text-"):
         lines.append("p = deb822.%s(%r)" % (case["cls"], make_text(case)))
